@@ -165,6 +165,22 @@ def run(tier, seed):
                 body = bytes.fromhex(g.split()[1]) if g.split()[1] != "-" else b""
                 dr = directions(c)[0]
                 frames.append((libname(c), dr, frame(libname(c), dr, c["opcode"], body)))
+        # limits are where configuration-dependent constants would show: one string of the frame at / beyond the published limits and
+        # at the next powers of two (reference encoder), for every message with a string member
+        import pyenc
+        n_lim = 0
+        for c in okc:
+            nstr = sum(1 for t in c["tokens"] if t in ("cstring", "sizedcstring", "string"))
+            if not nstr or (tier == "quick" and c["lib"] not in ("vanilla", "login")):
+                continue
+            for k_ in range(min(nstr, 2 if tier == "quick" else 4)):
+                for n_ in (256, 257, 1000, 4096, 4097) + ((255, 300, 8000, 8001, 65535) if tier != "quick" else ()):
+                    try:
+                        body = pyenc.encode(c["tokens"], rng, 1, None, strlen=(k_, n_))
+                        frames.append((libname(c), directions(c)[0], frame(libname(c), directions(c)[0], c["opcode"], body)))
+                        n_lim += 1
+                    except (pyenc.Unsupported, OverflowError, ValueError):
+                        continue
         r = corpus_mod.Resolver()
         for lib, dr, bs, name in test_vectors(r.objs):
             frames.append((lib, dr, bs))
